@@ -76,7 +76,11 @@ def evaluate(prop, cases, workdir, tag):
                 if c.get("want_toks"):
                     defs += "\nDefinition toks_%d : option (list tok) := %s." % (
                         c["id"], ("(Some %s)" % r["toks"]) if r.get("toks") else "None")
-                expr = prop.verdict_expr_noout(c, r, "ir_%d" % c["id"])
+                try:
+                    expr = prop.verdict_expr_noout(c, r, "ir_%d" % c["id"])
+                except Exception as ex:      # an observation of an unexpected shape must not stop the check: correspondence broken
+                    rec["skip"] = "extract_error: %s; and the behavioural fallback failed on the observations: %r" % (r.get("extract_err"), ex)
+                    continue
                 if expr is not None:        # None: this case has no other observation to decide (b) with
                     items.append((c["id"], defs, expr))
                     rec["noout"] = True
@@ -88,7 +92,11 @@ def evaluate(prop, cases, workdir, tag):
         if c.get("want_toks"):
             defs += "\nDefinition toks_%d : option (list tok) := %s." % (
                 c["id"], ("(Some %s)" % r["toks"]) if r.get("toks") else "None")
-        expr = prop.verdict_expr(c, r, "ir_%d" % c["id"], "real_%d" % c["id"])
+        try:
+            expr = prop.verdict_expr(c, r, "ir_%d" % c["id"], "real_%d" % c["id"])
+        except Exception as ex:          # observations of an unexpected shape: report as a broken correspondence, do not crash
+            rec["skip"] = "extract_error: harness could not interpret the observations of this case: %r" % (ex,)
+            continue
         if c["opts"].get("validate") and getattr(prop, "VALIDATE_MIX", False):
             # validation only gates: the model behind a validated call is the same generator behind the validator's verdict
             expr = expr.replace("(gen ir_%d " % c["id"], "(genv true %s ir_%d " % ("false" if r.get("valid") is False else "true", c["id"]))
